@@ -35,6 +35,12 @@
 (* value x is ToModel(prior, x) -- decided by the space of the PRIOR that    *)
 (* is attached to the parameter, whatever the parameter's fitting mode       *)
 (* (Delivery = "by_prior"); "by_mode" is the expected-counterexample variant.*)
+(*                                                                         *)
+(* Owners: the fitted parameter lives on the forward model or on the         *)
+(* observation; compile_params handles the two owners in two passes.  The    *)
+(* prior in force is the user's when one was given, else the default from    *)
+(* the parameter's own mode and bounds -- for either owner (InForce);        *)
+(* Passes = "second_blind" is the expected-counterexample variant.           *)
 (***************************************************************************)
 EXTENDS Integers, Sequences, FiniteSets, TLC, Json, Rat, SequencesExt
 
@@ -48,7 +54,9 @@ CONSTANTS UN,       \* u grid: u = k / UN, k \in 0..UN
           ZTS, ZTCode, ZDCode, \* ladder tables ZT[k] ~ ZTS * Phi^-1(2^-k), ZD[k] ~ ZTS * Phi^-1(10^-k), given as the sets
                     \* {k * ZTBase - Z.[k]} (cfg files have neither tuples nor negative numbers); the harness re-computes
                     \* every entry before it trusts it
-          Delivery  \* "by_prior": update_model hands prior.prior(x) to the model (the code); "by_mode": self-test
+          Delivery, \* "by_prior": update_model hands prior.prior(x) to the model (the code); "by_mode": self-test
+          Passes    \* "user_table": every pass of compile_params is handed the priors the user gave (the code);
+                    \* "second_blind": the second pass (the observation's parameters) is not (self-test)
 
 LogKinds == {"LogUniform", "LogGaussian"}
 UniKinds == {"Uniform", "LogUniform"}
@@ -156,6 +164,21 @@ FromText(t) == IF Lookup(t.name) = "error" THEN "error"
 DefaultCall(mode, bounds) == IF mode = "log"
                              THEN [cls |-> "LogUniform", key1 |-> "lin_bounds", v1 |-> bounds, key2 |-> "", v2 |-> 0]
                              ELSE [cls |-> "Uniform", key1 |-> "bounds", v1 |-> bounds, key2 |-> "", v2 |-> 0]
+
+\* ------------------------------------------------- where the fitted parameter lives
+\* A fitting parameter is owned by the forward model or by the observation (a BaseSpectrum that declares @fitparam
+\* parameters: offsets, scale factors, ...).  Optimizer.compile_params walks the owners in passes -- the model's fitted
+\* parameters first, the observation's second -- and appends what it finds to one list of parameters and one list of
+\* priors.  Each pass is handed the table of the priors the user gave (set_prior object / text / [Fitting] file); a
+\* fitted parameter the table has no entry for gets the default prior of its own mode and bounds, whoever owns it.
+Owners == {"model", "observation"}
+PassOf(owner) == IF owner = "model" THEN 1 ELSE 2
+NoPrior == [kind |-> "None", a |-> Q(0), b |-> Q(0)]
+\* the user's entry for a parameter as the pass that compiles its owner sees it
+SeenBy(owner, user) == IF Passes = "second_blind" /\ PassOf(owner) = 2 THEN NoPrior ELSE user
+\* the prior in force after compile_params for a fitted parameter of `owner` in `mode` with (linear-space) `bounds`
+\* to which the user attached `user` (NoPrior: nothing)
+InForce(owner, user, mode, bounds) == IF SeenBy(owner, user) = NoPrior THEN Build(DefaultCall(mode, bounds)) ELSE user
 
 \* ---------------------------------------------------------------- properties
 Monotone(p) == \A k, j \in Grid(p) : k < j => RLt(Sample(p, k), Sample(p, j))
